@@ -84,3 +84,10 @@ Example C10_ex_single_item :
   | _ => False
   end.
 Proof. vm_compute. reflexivity. Qed.
+
+(* ... and through rimu.render: whatever the option values of the call do to the session first *)
+Theorem C10_single_item_list_api : forall n item o s s1,
+  updateFrom o (if (s_mode s =? -1)%Z then document_init s else s) = Ok (tt, s1) -> quiet_default s1 -> li_item_ok item ->
+  api_render (S (S (S (S (S (S (S n))))))) (li_line item) o s = Ok ($"<ul><li>" ++ escape item ++ $"</li></ul>", set_listids s1 []).
+Proof. exact single_item_list_api. Qed.
+Print Assumptions C10_single_item_list_api.
